@@ -97,7 +97,7 @@ def fuzz_stage(c, cfg):
                    PVMON_FUZZ_CAP_MB=str(fz.get("cap_mb", 1024)))
         errf = open(os.path.join(fdir, "stderr-%d" % i), "wb")
         cmd = [binpath, corpus, "-max_total_time=%d" % seconds, "-timeout=%d" % fz.get("timeout", 25), "-max_len=%d" % fz.get("max_len", 2048),
-               "-use_value_profile=1", "-reload=1", "-seed=%d" % (seed * 1000 + i + 1), "-artifact_prefix=%s/" % art, "-print_final_stats=1", "-rss_limit_mb=6000"]
+               "-use_value_profile=1", "-reload=1", "-dict=%s" % os.path.join(c["root"], "harness", "fuzz", "tokens.dict"), "-seed=%d" % (seed * 1000 + i + 1), "-artifact_prefix=%s/" % art, "-print_final_stats=1", "-rss_limit_mb=6000"]
         ps.append((subprocess.Popen(cmd, cwd=fdir, env=env, stdout=subprocess.DEVNULL, stderr=errf, preexec_fn=_limits), errf, art, i))
     deadline = t0 + seconds + 120
     stats = {"execs": 0, "cov": 0, "ft": 0, "procs": procs, "seconds": seconds, "crashed_procs": 0}
